@@ -10,7 +10,7 @@ CONSTANTS
   NameVectors <- NoVectors
   InitMode = "all"
   LogFields = {"name", "kids"}
-  Ops = {"add_child", "insert", "remove_child", "remove_child_fail", "remove_children", "replace_child", "replace_child_fail", "shift", "shift_fail"}
+  Ops = {"add_child", "insert", "insert_py", "remove_child", "remove_child_fail", "remove_children", "replace_child", "replace_child_fail", "shift", "shift_fail"}
 VIEW StateView
 INVARIANT TypeOK
 INVARIANT ForestOK
